@@ -1033,11 +1033,30 @@ is done): a request whose token was drawn is fired unless `discard_overflow` is 
 behind AND its context is alive. In particular with `discard_overflow` off every such request is fired. -/
 theorem C10_fire_decision (it : Iter) :
     (it.fire = true ↔ (it.discardOverflow = false ∨ it.ctxDone = true ∨ it.overdueNanos < 2000000000)) ∧
-    (it.discardOverflow = false → it.fire = true) := by
+    (it.discardOverflow = false → it.fire = true) ∧
+    (∀ d s : Bool, fireDecision d s = Gen.RespGuard.instanceShootCond d s) ∧
+    (maxOverdueNanos : Int) = Gen.RespGuard.maxOverdueNanos := by
   have h : it.fire = true ↔ (it.discardOverflow = false ∨ it.ctxDone = true ∨ it.overdueNanos < 2000000000) := by
     unfold Iter.fire fireDecision isSlowDown maxOverdueNanos
     cases it.discardOverflow <;> cases it.ctxDone <;> simp
-  exact ⟨h, fun hd => h.mpr (Or.inl hd)⟩
+  exact ⟨h, fun hd => h.mpr (Or.inl hd), fireDecision_regenerated, maxOverdue_regenerated⟩
+
+/-- OPTION DEFAULTS of the tag: every registered http-family gun (`http`, `http2`, `connect`, `http/scenario`,
+`http2/scenario`: regenerated `register.Gun` calls) decodes its config over a defaults function whose `auto-tag` section is
+`{enabled: false, uri-elements: 2, no-tag-only: true}` (regenerated literals) — the values docs/eng/http-generator.md
+documents (regenerated remarks). So for a section written only in part (`none`: key absent) the sample carries the tag the
+Spec derives from what is written and the DOCUMENTED defaults, for all tags, paths and outcomes. -/
+theorem C10_autotag_defaults :
+    (∀ g ∈ Gen.GrpcStatus.gunDefaultConfig, Gen.GrpcStatus.autoTagDefaults.lookup g.2 =
+        some (defaultAutoTag.enabled, defaultAutoTag.uriElements, defaultAutoTag.noTagOnly)) ∧
+    (defaultAutoTag.enabled = false ∧ defaultAutoTag.uriElements = docUriElements ∧ defaultAutoTag.noTagOnly = docNoTagOnly) ∧
+    (∀ (en : Option Bool) (el : Option Nat) (nto : Option Bool) (s : HttpShot), s.connectHook = none → s.invalid = false →
+        ∀ r ∈ (shootHttp (decodeAutoTag en el nto) s).reports, r.tags = expectedTagWritten en el nto s.ammoTag s.path) := by
+  refine ⟨Bridge.GrpcStatus.registered_guns_autoTag_default, Bridge.GrpcStatus.defaultAutoTag_documented, ?_⟩
+  intro en el nto s hc hv r hr
+  have := C10_tag.1 (decodeAutoTag en el nto) s hc hv r hr
+  rw [this]
+  rfl
 
 /-- A whole run of one instance through the regenerated loop body: iteration after iteration until `Acquire` fails, any
 guns' samples, any answers of the environment. What reaches the aggregator is, iteration by iteration, what the property
@@ -1261,5 +1280,10 @@ example : runPoolLoop Gen.InstLoop.iterBody ⟨false, 2, true⟩ 0
 example : (0 : Nat) + [(), (), (), ()].length < idModulus := by decide
 example : judgeDiscards 4 1 2 = "fail:count:2 sample(s) say a shot was discarded (not sent) but only 1 of the 4 request(s) were not fired" := by decide
 example : judgeFiredOrNot false "t" (.received 200) [⟨"t", 3, 200, 0⟩] ≠ "ok" := by decide
+
+-- round 6: `auto-tag: {enabled: true}` alone tags like the documented example; uri-elements 3 written, the rest default
+example : (shootHttp (decodeAutoTag (some true) none none) { ammoTag := "", id := 1, path := "/my/very/deep/page", outcome := .response 200 none }).reports
+    = [{ tags := "/my/very", id := 1, proto := 200, net := 0 }] := by decide
+example : expectedTagWritten (some true) (some 3) none "T" "/a/b/c/d" = "T" ∧ expectedTagWritten (some true) (some 3) (some false) "T" "/a/b/c/d" = "T|/a/b/c" := by decide
 
 end Pandora.Props.C10
